@@ -143,6 +143,21 @@ EXTRA5 = {
 }
 for _k, _v in EXTRA5.items():
     EXTRA[_k] = EXTRA.get(_k, '') + _v
+EXTRA6 = {
+    'C01': ' shard readers keep no per-shard state on the shared reader object.',
+    'C02': ' process_record is mapped before batching in the tf.data interface; readers are stateless.',
+    'C07': ' no done-callbacks; every background task is awaited on a normal path.',
+    'C10': ' the counter is += 1 directly after the write (nothing fallible between).',
+    'C11': ' validators are registered (outermost decorator) and no serializer rewrites persisted values.',
+    'C12': ' selected paths are never treated as patterns.',
+    'C13': ' the consumer classifies items only by the pool\'s marker classes.',
+    'C15': ' Drop joins the workers after telling them to stop.',
+    'C17': ' validators are registered (outermost decorator).',
+    'C18': ' the counter is += 1 directly after the write (nothing fallible between).',
+    'C20': ' validators are registered; no serializer rewrites persisted values.',
+}
+for _k, _v in EXTRA6.items():
+    EXTRA[_k] = EXTRA.get(_k, '') + _v
 for _pid, _t in EXTRA.items():
     _a, _b, _c = P[_pid]
     P[_pid] = (_a + _t, _b, _c)
